@@ -26,7 +26,7 @@ import (
 // the code under test.
 
 type val struct {
-	b    []byte           // byte value (points: compressed serialisation)
+	b    []byte // byte value (points: compressed serialisation)
 	priv *btcec.PrivateKey
 	pub  *btcec.PublicKey
 }
